@@ -111,7 +111,10 @@ pub struct SrvInfo {
     pub yi: Ipv4Address,
     pub lease: Option<u32>,
     pub bad: String,
-    pub deliverable: bool,
+    pub ipsrc: Ipv4Address,
+    pub eth_ok: bool,
+    pub sport: u16,
+    pub dport: u16,
 }
 
 pub struct Sim {
@@ -298,7 +301,10 @@ impl Sim {
             yi,
             lease,
             bad: bad.clone(),
-            deliverable: bad == "-" && g("eth", "bcast") != "other" && sport == 67 && dport == 68,
+            ipsrc,
+            eth_ok: g("eth", "bcast") != "other",
+            sport,
+            dport,
         };
         (f, info)
     }
@@ -563,15 +569,674 @@ fn run_case(c: &Case, out: &mut dyn Write) {
     }
 }
 
+// ------------------------------------------------------------------------------------------------
+// Oracle: the clauses of property C18 evaluated on the implementation's trace
+// ------------------------------------------------------------------------------------------------
+
+const DEFAULT_LEASE_US: u128 = 120_000_000; // socket/dhcpv4.rs DEFAULT_LEASE_DURATION (no lease option in the ACK)
+const SILENT_US: i64 = 1_000_000; // socket_meta DISCOVERY_SILENT_TIME
+
+fn mask_prefix(m: Ipv4Address) -> Option<u8> {
+    let b = m.to_bits();
+    if b.leading_ones() + b.trailing_zeros() == 32 {
+        Some(b.leading_ones() as u8)
+    } else {
+        None
+    }
+}
+
+#[derive(Clone, Debug)]
+struct Lease {
+    expires: i128,
+    rebind_seen: bool,
+}
+
+struct Oracle {
+    id: String,
+    apply: bool,
+    sport: u16,
+    cport: u16,
+    last_req_xid: Option<u32>,
+    req_xids: Vec<u32>,
+    pending: Vec<SrvInfo>,
+    configured: bool,
+    lease: Option<Lease>,
+    cidr: Option<Ipv4Cidr>,
+    max_lease: Option<u128>,
+    disc: u128,
+    req: u128,
+    retries: u32,
+    prev_pollat: Option<i64>,
+    silenced_until: i64,
+    first_poll: bool,
+    arith: bool,
+    pub fails: Vec<String>,
+    pub stats: BTreeMap<String, u64>,
+}
+
+impl Oracle {
+    fn new(c: &Case) -> Oracle {
+        let d = |k: &str, dflt: u128| -> u128 {
+            match c.get(k) {
+                None => dflt,
+                Some("max") => u64::MAX as u128,
+                Some(v) => v.parse().unwrap(),
+            }
+        };
+        Oracle {
+            id: c.id.clone(),
+            apply: c.get_i("apply", 1) != 0,
+            sport: c.get_i("sport", 67) as u16,
+            cport: c.get_i("cport", 68) as u16,
+            last_req_xid: None,
+            req_xids: vec![],
+            pending: vec![],
+            configured: false,
+            lease: None,
+            cidr: None,
+            max_lease: match c.get("maxlease") {
+                None | Some("-") => None,
+                Some("max") => Some(u64::MAX as u128),
+                Some(v) => Some(v.parse().unwrap()),
+            },
+            disc: d("disc", 10_000_000),
+            req: d("req", 5_000_000),
+            retries: c.get_i("retries", 5) as u32,
+            prev_pollat: None,
+            silenced_until: i64::MIN,
+            first_poll: true,
+            arith: c.get_i("arith", 0) != 0,
+            fails: vec![],
+            stats: BTreeMap::new(),
+        }
+    }
+    fn bump(&mut self, k: &str) {
+        *self.stats.entry(k.to_string()).or_default() += 1;
+    }
+    fn fail(&mut self, class: &str, k: usize, op: &str, why: String) {
+        self.bump(&format!("fail_{}", class));
+        self.fails.push(format!("{} :: case {} op#{} `{}`: {}", class, self.id, k, op, why));
+    }
+    /// does the interface hand this frame to the socket?
+    fn deliverable(&self, m: &SrvInfo) -> bool {
+        let src_ok = {
+            let a = m.ipsrc;
+            let subnet_bcast = self.cidr.and_then(|c| c.broadcast()).map(|b| b == a).unwrap_or(false);
+            (is_unicast(a) && !subnet_bcast) || a.is_unspecified()
+        };
+        m.bad == "-" && m.eth_ok && src_ok && m.sport == self.sport && m.dport == self.cport
+    }
+    /// clauses (iii)-(vi) of the property on the message content
+    fn content_ok(m: &SrvInfo) -> bool {
+        m.kind == "ack" && m.mac_own && m.sid.is_some() && m.mask.and_then(mask_prefix).is_some() && is_unicast(m.yi)
+    }
+    fn eff_lease(&self, m: &SrvInfo) -> u128 {
+        let l = m.lease.map(|s| s as u128 * 1_000_000).unwrap_or(DEFAULT_LEASE_US);
+        match self.max_lease {
+            Some(x) => l.min(x),
+            None => l,
+        }
+    }
+    /// bound on the distance between two solicitations (DISCOVER / REQUEST) of an unconfigured client
+    fn solicit_bound(&self) -> u128 {
+        if self.retries == 0 {
+            self.disc
+        } else {
+            let sh = ((self.retries - 1) / 2).min(62);
+            self.disc.max(self.req.saturating_mul(1u128 << sh)).min(i64::MAX as u128)
+        }
+    }
+
+    fn on_op(&mut self, k: usize, op: &str, o: &StepObs) {
+        let w: Vec<&str> = op.split_whitespace().collect();
+        match w[0] {
+            "srv" => {
+                if let Some(i) = &o.srv {
+                    self.pending.push(i.clone());
+                }
+                return;
+            }
+            "setmaxlease" => {
+                self.max_lease = if w[1] == "-" { None } else if w[1] == "max" { Some(u64::MAX as u128) } else { Some(w[1].parse().unwrap()) };
+                return;
+            }
+            "setretry" => {
+                let m = kv(op);
+                let d = |v: &String| -> u128 { if v == "max" { u64::MAX as u128 } else { v.parse().unwrap() } };
+                if let Some(v) = m.get("disc") {
+                    self.disc = d(v);
+                }
+                if let Some(v) = m.get("req") {
+                    self.req = d(v);
+                }
+                if let Some(v) = m.get("retries") {
+                    self.retries = v.parse().unwrap();
+                }
+                return;
+            }
+            "poll" | "pollrel" => {}
+            _ => return,
+        }
+        if !o.polled {
+            return;
+        }
+        let t = o.t;
+        self.bump("polls");
+        if o.panicked {
+            if self.arith {
+                // back-off arithmetic deliberately configured to leave the u64/i64 range (stream-only cases)
+                self.bump("arith_config_panics");
+            } else {
+                self.fail("poll-panicked", k, op, format!("Interface::poll panicked at t={}", t));
+            }
+            return;
+        }
+        let ev = o.ev.clone().unwrap_or(Ev::None);
+        let was_configured = self.configured;
+        // --- ingress: the frames queued since the previous poll, in order
+        let batch: Vec<SrvInfo> = self.pending.drain(..).collect();
+        let delivered: Vec<&SrvInfo> = batch.iter().filter(|m| self.deliverable(m)).collect();
+        let valid: Vec<&SrvInfo> = delivered.iter().cloned().filter(|m| Self::content_ok(m) && Some(m.xid) == self.last_req_xid).collect();
+        match &ev {
+            Ev::Conf { addr, .. } => {
+                self.bump("ev_conf");
+                let matching: Vec<&&SrvInfo> = valid
+                    .iter()
+                    .filter(|m| m.yi == addr.address() && m.mask.and_then(mask_prefix) == Some(addr.prefix_len()))
+                    .collect();
+                if let Some(m) = matching.last() {
+                    let e = t as i128 + self.eff_lease(m) as i128;
+                    self.lease = Some(Lease { expires: e, rebind_seen: false });
+                } else {
+                    // classify
+                    let content: Vec<&&SrvInfo> = delivered.iter().filter(|m| Self::content_ok(m)).collect();
+                    if content.is_empty() {
+                        self.fail("configured-without-valid-ack", k, op, format!("Configured {} reported, no acceptable DHCPACK was delivered by this poll", addr));
+                    } else if content.iter().any(|m| !self.req_xids.contains(&m.xid)) && self.last_req_xid.map(|x| content.iter().all(|m| m.xid != x)).unwrap_or(true) {
+                        self.fail("configured-before-request", k, op, format!("Configured {} reported from an ACK whose xid was never carried by a transmitted DHCPREQUEST (last REQUEST xid: {:?})", addr, self.last_req_xid));
+                    } else {
+                        self.fail("configured-by-stale-xid", k, op, format!("Configured {} reported from an ACK not carrying the xid of the most recent REQUEST ({:?})", addr, self.last_req_xid));
+                    }
+                    // keep going with a lease guess so that later clauses are still evaluated
+                    let e = content.last().map(|m| t as i128 + self.eff_lease(m) as i128).unwrap_or(t as i128);
+                    self.lease = Some(Lease { expires: e, rebind_seen: false });
+                }
+                self.configured = true;
+                if self.apply {
+                    self.cidr = Some(*addr);
+                }
+            }
+            Ev::None => {
+                if self.configured {
+                    if let Some(m) = valid.last() {
+                        // renewal (or duplicate ACK): the most recent such ACK grants the lease
+                        let e = t as i128 + self.eff_lease(m) as i128;
+                        self.lease = Some(Lease { expires: e, rebind_seen: false });
+                        self.bump("lease_renewed");
+                    }
+                }
+            }
+            Ev::Deconf => {
+                self.bump("ev_deconf");
+                self.configured = false;
+                self.lease = None;
+                if self.apply {
+                    self.cidr = None;
+                }
+            }
+        }
+        let in_silence = t < self.silenced_until;
+        // --- lease clauses
+        if self.configured {
+            let exp = self.lease.as_ref().map(|l| l.expires).unwrap_or(i128::MAX);
+            if t as i128 >= exp {
+                let cls = if in_silence { "expiry-postponed-by-neighbor-silence" } else { "configured-past-expiry" };
+                self.fail(cls, k, op, format!("poll at t={} >= expiry {} did not report Deconfigured", t, exp));
+            }
+            match o.pollat {
+                Some(p) if (p as i128) <= exp => {}
+                p => {
+                    let cls = if in_silence || p.map(|p| p <= self.silenced_until.max(t.saturating_add(SILENT_US))).unwrap_or(false) && self.recent_silent_attempt(t, o) {
+                        "expiry-postponed-by-neighbor-silence"
+                    } else {
+                        "pollat-beyond-expiry"
+                    };
+                    self.fail(cls, k, op, format!("Interface::poll_at = {:?} after the poll at t={} exceeds the lease expiry {}", p, t, exp));
+                }
+            }
+        }
+        // --- transmissions
+        for tx in &o.tx {
+            self.bump(&format!("tx_{}", tx.kind));
+            if tx.kind == "request" {
+                self.last_req_xid = Some(tx.xid);
+                if !self.req_xids.contains(&tx.xid) {
+                    self.req_xids.push(tx.xid);
+                }
+            }
+            if !tx.ci.is_unspecified() {
+                // renewal / rebinding REQUEST
+                let bcast = tx.dst.is_broadcast();
+                self.bump(if bcast { "tx_rebind" } else { "tx_renew" });
+                match self.lease.as_mut() {
+                    Some(l) if (t as i128) < l.expires => {
+                        if bcast {
+                            l.rebind_seen = true;
+                        } else if l.rebind_seen {
+                            self.fail("renew-after-rebind", k, op, format!("unicast renewal at t={} after a rebinding attempt of the same lease", t));
+                        }
+                    }
+                    _ => {
+                        self.fail("renewal-at-or-after-expiry", k, op, format!("renew/rebind REQUEST at t={} but the lease expired at {:?}", t, self.lease.as_ref().map(|l| l.expires)));
+                    }
+                }
+            }
+        }
+        // --- a due, configured poll that neither sent a DHCP frame nor changed anything: a renewal attempt failed for
+        //     lack of a neighbor / route; the interface silences the socket for DISCOVERY_SILENT_TIME
+        if self.configured && was_configured && ev == Ev::None && o.tx.is_empty() && self.prev_pollat.map(|p| p <= t).unwrap_or(false) && valid.is_empty() {
+            self.silenced_until = self.silenced_until.max(t.saturating_add(SILENT_US));
+            self.bump("silenced_attempts");
+        }
+        // --- solicitation while unconfigured
+        if !self.configured && !was_configured && !self.first_poll {
+            let due = self.prev_pollat.map(|p| p <= t).unwrap_or(false);
+            if due && o.tx.is_empty() {
+                self.fail("no-solicit-when-due", k, op, format!("unconfigured, deadline {:?} <= t={} but the poll transmitted no DISCOVER/REQUEST", self.prev_pollat, t));
+            }
+        }
+        if !self.configured && !self.arith && o.tx.iter().any(|x| x.ci.is_unspecified()) {
+            let b = self.solicit_bound();
+            match o.pollat {
+                Some(p) if (p as i128) <= t as i128 + b as i128 => {}
+                p => self.fail("solicit-gap-unbounded", k, op, format!("after soliciting at t={} the next deadline is {:?}, beyond t + {}", t, p, b)),
+            }
+        }
+        // --- C13's non-spinning clause on this socket (regression check of the D16 fix)
+        if o.n_rx == 0 && o.n_frames == 0 {
+            if let Some(p) = o.pollat {
+                if p <= t {
+                    self.fail("idle-poll-deadline-not-later", k, op, format!("poll at t={} neither received nor transmitted, yet poll_at = {} <= t", t, p));
+                }
+            }
+        }
+        self.first_poll = false;
+        self.prev_pollat = o.pollat;
+    }
+    fn recent_silent_attempt(&self, _t: i64, o: &StepObs) -> bool {
+        // the poll itself was a silent attempt (ARP request or nothing instead of the renewal)
+        o.tx.is_empty()
+    }
+}
+
+fn oracle_case(c: &Case, fails: &mut Vec<String>, stats: &mut BTreeMap<String, u64>) {
+    let mut sim = Sim::new(c);
+    let mut or = Oracle::new(c);
+    for (k, op) in c.ops.iter().enumerate() {
+        let o = sim.step(op);
+        or.on_op(k, op, &o);
+        if o.panicked {
+            break;
+        }
+    }
+    fails.extend(or.fails);
+    for (k, v) in or.stats {
+        *stats.entry(k).or_default() += v;
+    }
+}
+
+// ------------------------------------------------------------------------------------------------
+// Generator (adaptive: the script is produced while running the implementation, so that the server
+// can answer what the client actually sent; the emitted case is plain text replayed by both sides)
+// ------------------------------------------------------------------------------------------------
+
+const LEASES: &[&str] = &["0", "1", "2", "3", "4", "5", "8", "10", "10", "10", "30", "60", "120", "600", "86400", "2147483648", "4294967295", "-"];
+const MASKS_OK: &[&str] = &["255.255.255.0", "255.255.255.0", "255.255.0.0", "255.0.0.0", "0.0.0.0", "255.255.255.255", "255.255.255.254", "255.255.255.252", "128.0.0.0", "255.255.255.128"];
+const MASKS_BAD: &[&str] = &["255.0.255.0", "255.255.255.1", "0.255.255.255", "255.255.254.255", "0.0.0.1", "-"];
+const YI_BAD: &[&str] = &["0.0.0.0", "255.255.255.255", "224.0.0.5", "239.1.2.3"];
+const ROUTERS: &[&str] = &["-", "-", "10.0.0.1", "10.0.0.1", "10.0.0.254", "10.9.9.9", "255.255.255.255", "0.0.0.0", "224.0.0.1"];
+const DNS: &[&str] = &["-", "-", "1.1.1.1", "1.1.1.1,8.8.8.8", "1.1.1.1,0.0.0.0,8.8.8.8", "255.255.255.255,224.0.0.1", "1.1.1.1,2.2.2.2,3.3.3.3,4.4.4.4", "0.0.0.0"];
+const IPSRC_ODD: &[&str] = &["10.0.0.2", "192.168.7.1", "0.0.0.0", "10.0.0.255", "255.255.255.255", "224.0.0.1"];
+const BADS: &[&str] = &["trunc", "magic", "htype", "hlen", "nomsgtype", "opcode", "udpcksum", "ipcksum"];
+const KINDS_OTHER: &[&str] = &["discover", "request", "decline", "release", "inform"];
+
+struct Persona {
+    server: String,
+    sid: String,
+    yi: String,
+    mask: String,
+    lease: String,
+    t1: String,
+    t2: String,
+    router: String,
+    dns: String,
+    hostile: u64, // per-field perturbation probability in 1/100
+    loss: u64,    // probability in 1/100 that a client message gets no answer
+    arp_answer: u64,
+}
+
+fn t12(rng: &mut Rng, lease: &str) -> (String, String) {
+    let l: u64 = lease.parse().unwrap_or(120);
+    let pick = |rng: &mut Rng| -> String {
+        match rng.below(10) {
+            0..=3 => "-".into(),
+            4 => "0".into(),
+            5 => "1".into(),
+            6 => (l / 2).to_string(),
+            7 => l.saturating_sub(1).to_string(),
+            8 => l.to_string(),
+            _ => (*rng.pick(&["4294967295", "2", "3", "7", "9"])).to_string(),
+        }
+    };
+    match rng.below(10) {
+        0..=3 => ("-".into(), "-".into()),
+        4 => {
+            let a = pick(rng);
+            (a.clone(), a)
+        } // equal
+        5 => {
+            // proper order inside the lease
+            let a = l / 3;
+            let b = (2 * l) / 3;
+            (a.to_string(), b.to_string())
+        }
+        6 => ((l.saturating_sub(1)).to_string(), (l / 2).to_string()), // inverted
+        _ => (pick(rng), pick(rng)),
+    }
+}
+
+fn gen_header(rng: &mut Rng, id: String, arith: bool) -> Case {
+    let mut cfg: Vec<(String, String)> = vec![];
+    let mut put = |k: &str, v: String| cfg.push((k.to_string(), v));
+    put("apply", if rng.chance(4, 5) { "1" } else { "0" }.to_string());
+    put("seed", rng.below(1 << 40).to_string());
+    let mtu = match rng.below(10) {
+        0 => 9014,
+        1 => 700,
+        _ => 1514,
+    };
+    if mtu != 1514 {
+        put("mtu", mtu.to_string());
+    }
+    if arith {
+        put("arith", "1".into());
+        // configurations whose back-off arithmetic leaves the u64/i64 range (the model predicts the panic)
+        put("disc", (*rng.pick(&["1", "1000", "4611686018427387904", "9223372036854775807"])).to_string());
+        put("req", (*rng.pick(&["0", "1", "3", "4611686018427387904", "9223372036854775807", "max"])).to_string());
+        put("retries", (*rng.pick(&["130", "200", "65535", "126", "129"])).to_string());
+    } else if rng.chance(9, 20) {
+        put("disc", (*rng.pick(&["1", "1000", "1000000", "3000000", "10000000", "3600000000"])).to_string());
+        put("req", (*rng.pick(&["0", "1", "1000", "500000", "1000000", "5000000"])).to_string());
+        put("retries", (*rng.pick(&["0", "1", "2", "3", "5", "9", "20"])).to_string());
+        put("minrenew", (*rng.pick(&["1", "1000", "500000", "1000000", "60000000"])).to_string());
+        put("maxrenew", (*rng.pick(&["max", "max", "1", "1000", "1000000", "30000000", "3600000000"])).to_string());
+    }
+    match rng.below(10) {
+        0 => put("maxlease", "1000000".into()),
+        1 => put("maxlease", "5000000".into()),
+        2 => put("maxlease", (*rng.pick(&["0", "1", "3500000", "100000000", "max"])).to_string()),
+        _ => {}
+    }
+    if rng.chance(1, 10) {
+        put("naks", "1".into());
+    }
+    if rng.chance(3, 20) {
+        put("rxbuf", "1".into());
+    }
+    if rng.chance(1, 20) {
+        put("sport", "6700".into());
+        put("cport", "6800".into());
+    }
+    Case { id, cfg, ops: vec![] }
+}
+
+fn gen_case(rng: &mut Rng, id: String, tier: &str) -> Case {
+    let arith = rng.chance(1, 60);
+    let mut c = gen_header(rng, id, arith);
+    let mut sim = Sim::new(&c);
+    let (sp, cp) = (c.get_i("sport", 67), c.get_i("cport", 68));
+    let lease = (*rng.pick(LEASES)).to_string();
+    let (t1, t2) = t12(rng, &lease);
+    let style = rng.below(10);
+    let p = Persona {
+        server: if rng.chance(9, 10) { "10.0.0.1".into() } else { (*rng.pick(&["10.0.0.2", "192.168.7.1", "10.0.0.255"])).to_string() },
+        sid: if rng.chance(9, 10) { "10.0.0.1".into() } else { "10.0.0.9".into() },
+        yi: if rng.chance(9, 10) { "10.0.0.42".into() } else { (*rng.pick(&["10.0.0.43", "172.16.5.5", "10.0.0.254", "1.2.3.4"])).to_string() },
+        mask: (*rng.pick(MASKS_OK)).to_string(),
+        lease,
+        t1,
+        t2,
+        router: (*rng.pick(ROUTERS)).to_string(),
+        dns: (*rng.pick(DNS)).to_string(),
+        hostile: match style {
+            0..=4 => 2,
+            5..=7 => 10,
+            _ => 30,
+        },
+        loss: match rng.below(4) {
+            0 => 0,
+            1 => 10,
+            2 => 35,
+            _ => 70,
+        },
+        arp_answer: *rng.pick(&[0, 50, 90, 100]),
+    };
+    let n_ev = if tier == "thorough" { rng.range(10, 90) } else { rng.range(8, 48) } as usize;
+    let mut unanswered: Option<TxDhcp> = None;
+    let mut arp_pending: Option<String> = None;
+    let mut need_poll = true;
+    let mut ops: Vec<String> = vec![];
+    let push = |sim: &mut Sim, ops: &mut Vec<String>, op: String, unanswered: &mut Option<TxDhcp>, arp_pending: &mut Option<String>| {
+        let o = sim.step(&op);
+        for l in &o.lines {
+            if let Some(rest) = l.strip_prefix("tx arp req ") {
+                let m = kv(&format!("x {}", rest));
+                *arp_pending = m.get("tpa").cloned();
+            }
+        }
+        if let Some(t) = o.tx.last() {
+            *unanswered = Some(t.clone());
+        }
+        ops.push(op);
+    };
+    while ops.len() < n_ev && !sim.dead {
+        let r = rng.below(100);
+        if need_poll || r < 45 {
+            // ---- poll
+            let op = match rng.below(20) {
+                0..=9 => "pollrel d=0".to_string(),
+                10 => "pollrel d=-1".to_string(),
+                11 => "pollrel d=1".to_string(),
+                12 => format!("pollrel d=-{}", rng.range(2, 2_000_000)),
+                13 => format!("pollrel d={}", rng.range(2, 2_000_000)),
+                14 => format!("pollrel d={}", *rng.pick(&[1_000_000i64, 5_000_000, 10_000_000, 60_000_000, 120_000_000, 600_000_000])),
+                15 | 16 => format!("poll t={}", sim.now + rng.range(0, 3_000_000)),
+                17 => format!("poll t={}", sim.now + *rng.pick(&[1i64, 1000, 500_000, 1_000_000, 2_500_000, 10_000_000])),
+                18 => format!("poll t={}", sim.now),
+                _ => {
+                    if arith {
+                        format!("pollrel d={}", *rng.pick(&[0i64, 0, 0, 4_611_686_018_427_387_904, 1 << 40]))
+                    } else {
+                        format!("poll t={}", sim.now + rng.range(0, 200_000_000))
+                    }
+                }
+            };
+            push(&mut sim, &mut ops, op, &mut unanswered, &mut arp_pending);
+            need_poll = false;
+            continue;
+        }
+        if r < 55 {
+            if let Some(tpa) = arp_pending.take() {
+                if rng.below(100) < p.arp_answer {
+                    push(&mut sim, &mut ops, format!("arp spa={}", tpa), &mut unanswered, &mut arp_pending);
+                    need_poll = rng.chance(4, 5);
+                }
+                continue;
+            }
+        }
+        if r < 62 {
+            // ---- API calls
+            let op = match rng.below(8) {
+                0 | 1 => format!("setmaxlease {}", *rng.pick(&["-", "1000000", "3000000", "10000000", "0", "max"])),
+                2 => "reset".to_string(),
+                3 => format!("setnaks {}", rng.below(2)),
+                4 if !arith => format!(
+                    "setretry disc={} req={} retries={}",
+                    *rng.pick(&["1000", "1000000", "10000000"]),
+                    *rng.pick(&["0", "1000", "1000000", "5000000"]),
+                    *rng.pick(&["0", "1", "3", "5"])
+                ),
+                5 if !arith => format!("setretry minrenew={} maxrenew={}", *rng.pick(&["1", "1000000", "60000000"]), *rng.pick(&["max", "1000000", "1"])),
+                _ => continue,
+            };
+            if rng.chance(1, 3) {
+                push(&mut sim, &mut ops, op, &mut unanswered, &mut arp_pending);
+            }
+            continue;
+        }
+        // ---- a server message
+        let spontaneous = unanswered.is_none();
+        if !spontaneous && rng.below(100) < p.loss {
+            unanswered = None; // the client's message (or the answer) is lost
+            continue;
+        }
+        if spontaneous && !rng.chance(1, 4) {
+            need_poll = true;
+            continue;
+        }
+        let last = unanswered.take();
+        let h = p.hostile;
+        let after_discover = last.as_ref().map(|t| t.kind == "discover").unwrap_or(rng.chance(1, 2));
+        let burst = if rng.chance(1, 12) { 2 } else { 1 };
+        for b in 0..burst {
+            let kind: String = if b == 1 {
+                // second frame of a batch: typically the ACK right behind the OFFER, or a duplicate
+                (*rng.pick(&["ack", "ack", "nak", "offer"])).to_string()
+            } else if after_discover {
+                match rng.below(100) {
+                    0..=84 => "offer".into(),
+                    85..=90 => "ack".into(),
+                    91..=93 => "nak".into(),
+                    _ => (*rng.pick(KINDS_OTHER)).to_string(),
+                }
+            } else {
+                match rng.below(100) {
+                    0..=74 => "ack".into(),
+                    75..=84 => "nak".into(),
+                    85..=92 => "offer".into(),
+                    _ => (*rng.pick(KINDS_OTHER)).to_string(),
+                }
+            };
+            let pert = |rng: &mut Rng| rng.below(100) < h;
+            let xid = if pert(rng) { *rng.pick(&["stale", "other"]) } else { "same" };
+            let mac = if pert(rng) { "other" } else { "own" };
+            let sid = if pert(rng) { "-".to_string() } else { p.sid.clone() };
+            let yi = if pert(rng) { (*rng.pick(YI_BAD)).to_string() } else { p.yi.clone() };
+            let mask = if pert(rng) { (*rng.pick(MASKS_BAD)).to_string() } else if pert(rng) { (*rng.pick(MASKS_OK)).to_string() } else { p.mask.clone() };
+            let (lease, t1, t2) = if pert(rng) {
+                let l = (*rng.pick(LEASES)).to_string();
+                let (a, b) = t12(rng, &l);
+                (l, a, b)
+            } else {
+                (p.lease.clone(), p.t1.clone(), p.t2.clone())
+            };
+            let router = if pert(rng) { (*rng.pick(ROUTERS)).to_string() } else { p.router.clone() };
+            let dns = if pert(rng) { (*rng.pick(DNS)).to_string() } else { p.dns.clone() };
+            let ipsrc = if pert(rng) { (*rng.pick(IPSRC_ODD)).to_string() } else { p.server.clone() };
+            let eth = if pert(rng) { "other" } else if rng.chance(1, 2) { "bcast" } else { "own" };
+            let bad = if pert(rng) { *rng.pick(BADS) } else { "-" };
+            let (sport, dport, force_bcast) = if rng.below(100) < h / 2 {
+                if rng.chance(1, 2) {
+                    (1067, cp, true)
+                } else {
+                    (sp, 1068, true)
+                }
+            } else {
+                (sp, cp, false)
+            };
+            let ipdst = if force_bcast || rng.chance(3, 5) { "255.255.255.255".to_string() } else { p.yi.clone() };
+            let op = format!(
+                "srv kind={} xid={} mac={} sid={} yi={} mask={} lease={} t1={} t2={} router={} dns={} ipsrc={} ipdst={} eth={} sport={} dport={} bad={}",
+                kind, xid, mac, sid, yi, mask, lease, t1, t2, router, dns, ipsrc, ipdst, eth, sport, dport, bad
+            );
+            push(&mut sim, &mut ops, op, &mut unanswered, &mut arp_pending);
+        }
+        need_poll = rng.chance(9, 10);
+    }
+    c.ops = ops;
+    c
+}
+
+const BUILTIN: &str = include_str!("../../../corpus/C18/dhcp-d14-ack-before-request.case");
+const BUILTIN2: &str = include_str!("../../../corpus/C18/dhcp-d16-expiry-idle-poll.case");
+const BUILTIN3: &str = include_str!("../../../corpus/C18/dhcp-offer-from-unspecified.case");
+const BUILTIN4: &str = include_str!("../../../corpus/C18/dhcp-d14b-expiry-while-silenced.case");
+const BUILTIN5: &str = include_str!("../../../corpus/C18/dhcp-happy-renew-rebind-expiry.case");
+
 fn main() {
     quiet_panics();
-    let (sub, _seed, _n, _tier) = args();
+    let (sub, seed, n, tier) = args();
     let stdout = std::io::stdout();
     let mut out = std::io::BufWriter::new(stdout.lock());
     match sub.as_str() {
+        "gen" => {
+            let mut rng = Rng::new(seed);
+            for i in 0..n {
+                gen_case(&mut rng, format!("s{}-{}", seed, i), &tier).write(&mut out);
+            }
+        }
         "run" => {
             for c in stdin_cases() {
                 run_case(&c, &mut out);
+            }
+        }
+        "oracle" => {
+            let mut rng = Rng::new(seed ^ 0xD4C9);
+            let mut fails = vec![];
+            let mut stats = BTreeMap::new();
+            let mut cases: Vec<Case> = vec![];
+            for txt in [BUILTIN, BUILTIN2, BUILTIN3, BUILTIN4, BUILTIN5] {
+                cases.extend(read_cases(&mut std::io::BufReader::new(txt.as_bytes())));
+            }
+            let nb = cases.len();
+            for i in 0..n {
+                cases.push(gen_case(&mut rng, format!("o{}-{}", seed, i), &tier));
+            }
+            // at most 2 failing cases are reported per class (FAILCASE block + FAIL line, in the same order)
+            let mut per_class: BTreeMap<String, usize> = BTreeMap::new();
+            for c in &cases {
+                let mut f1 = vec![];
+                oracle_case(c, &mut f1, &mut stats);
+                let mut seen: Vec<String> = vec![];
+                for f in f1 {
+                    let cls = f.split("::").next().unwrap().trim().to_string();
+                    if seen.contains(&cls) {
+                        continue;
+                    }
+                    seen.push(cls.clone());
+                    let n = per_class.entry(cls).or_default();
+                    *n += 1;
+                    if *n <= 2 {
+                        writeln!(out, "FAILCASE").unwrap();
+                        c.write(&mut out);
+                        fails.push(f);
+                    }
+                }
+            }
+            for f in &fails {
+                writeln!(out, "FAIL {}", f).unwrap();
+            }
+            let st: Vec<String> = stats.iter().map(|(k, v)| format!("{}:{}", jstr(k), v)).collect();
+            writeln!(out, "STATS {{\"cases\":{},\"builtin_witnesses\":{},{}}}", cases.len(), nb, st.join(",")).unwrap();
+        }
+        "oracle-replay" => {
+            let mut fails = vec![];
+            let mut stats = BTreeMap::new();
+            for c in stdin_cases() {
+                oracle_case(&c, &mut fails, &mut stats);
+            }
+            for f in &fails {
+                writeln!(out, "FAIL {}", f).unwrap();
             }
         }
         x => panic!("unknown subcommand {}", x),
